@@ -18,7 +18,7 @@ CONSTANT DumpCases
 R == INSTANCE Req
 
 Modes == {"fn", "mod", "trait"}
-VisFor(mode) == IF mode = "fn" THEN {"", "pub", "pub(crate)", "pub(super)", "pub(in crate::cases)"} ELSE {"", "pub", "pub(crate)"}
+VisFor(mode) == IF mode = "fn" THEN {"", "pub", "pub(crate)", "pub(super)", "pub(in crate::cases)", "pub(in crate::cases::p)"} ELSE {"", "pub", "pub(crate)"}
 \* the item's own visibility (fn, mod); for trait inputs: the visibility keyword written in the attribute before the
 \* delegation-target trait's name - neither may influence the generated trait's visibility
 ItemVis == {"", "pub", "pub(crate)"}
